@@ -1,16 +1,926 @@
-(* Proofs/Format_proofs.v — lemmas about Model/Format.v *)
+(* Proofs/Format_proofs.v — lemmas about Model/Format.v (std.format / %). *)
 From RJ Require Import Base.Outcome Base.F64 Model.Format.
-From Coq Require Import Lia.
+From Coq Require Import Lia Floats.SpecFloat.
 Local Open Scope N_scope.
 
-(* pinned tree: the padding test compares the BYTE length with the width *)
-Lemma pad_reaches_width_refuted :
-  exists s w l, lenN (field_pad s w l) < w.
+Arguments N.add : simpl never.
+Arguments N.sub : simpl never.
+Arguments N.mul : simpl never.
+Arguments N.div : simpl never.
+Arguments N.modulo : simpl never.
+Arguments N.ltb : simpl never.
+Arguments N.leb : simpl never.
+Arguments N.eqb : simpl never.
+Arguments N.max : simpl never.
+Arguments N.min : simpl never.
+Arguments N.pow : simpl never.
+Arguments Z.mul : simpl never.
+Arguments Z.add : simpl never.
+Arguments Z.sub : simpl never.
+Arguments Z.pow : simpl never.
+Arguments Z.div : simpl never.
+Arguments Z.modulo : simpl never.
+
+(* ------------------------------------------------------------ lengths *)
+
+Lemma lenN_app {A} (a b : list A) : lenN (a ++ b) = lenN a + lenN b.
+Proof. unfold lenN. rewrite app_length. lia. Qed.
+
+Lemma lenN_cons {A} (x : A) l : lenN (x :: l) = 1 + lenN l.
+Proof. unfold lenN. cbn [length]. lia. Qed.
+
+Lemma lenN_nil {A} : lenN (@nil A) = 0.
+Proof. reflexivity. Qed.
+
+Lemma repeatN_succ c n : repeatN c (N.succ n) = c :: repeatN c n.
+Proof. unfold repeatN. rewrite N.iter_succ. reflexivity. Qed.
+
+Lemma repeatN_0 c : repeatN c 0 = [].
+Proof. reflexivity. Qed.
+
+Lemma lenN_repeatN c n : lenN (repeatN c n) = n.
+Proof.
+  induction n as [|n IH] using N.peano_ind.
+  - reflexivity.
+  - rewrite repeatN_succ, lenN_cons, IH. lia.
+Qed.
+
+Lemma repeatN_add c a b : repeatN c (a + b) = repeatN c a ++ repeatN c b.
+Proof.
+  induction a as [|a IH] using N.peano_ind.
+  - reflexivity.
+  - replace (N.succ a + b) with (N.succ (a + b)) by lia.
+    rewrite !repeatN_succ, IH. reflexivity.
+Qed.
+
+Lemma repeatN_all c n : Forall (fun x => x = c) (repeatN c n).
+Proof.
+  induction n as [|n IH] using N.peano_ind.
+  - constructor.
+  - rewrite repeatN_succ. constructor; auto.
+Qed.
+
+(* ------------------------------------------------------------ padding *)
+
+(* a rendered field is never shorter than its width, counted in characters *)
+Lemma pad_reaches_width s w l : w <= lenN (field_pad s w l).
+Proof.
+  unfold field_pad. destruct (lenN s <? w) eqn:H.
+  - apply N.ltb_lt in H. destruct l; rewrite lenN_app, lenN_repeatN; lia.
+  - apply N.ltb_ge in H. exact H.
+Qed.
+
+(* and it is exactly the field when that is already wide enough, else exactly [w] long *)
+Lemma pad_length s w l : lenN (field_pad s w l) = N.max w (lenN s).
+Proof.
+  unfold field_pad. destruct (lenN s <? w) eqn:H.
+  - apply N.ltb_lt in H. destruct l; rewrite lenN_app, lenN_repeatN; lia.
+  - apply N.ltb_ge in H. lia.
+Qed.
+
+(* the pinned tree (before /repo 0ba7637) tested the BYTE length *)
+Definition field_pad_bytes (s : str) (fwv : N) (left : bool) : str :=
+  if utf8_len s <? fwv then
+    let pad_len := fwv - lenN s in
+    if left then s ++ repeatN 32 pad_len else repeatN 32 pad_len ++ s
+  else s.
+
+Lemma pad_reaches_width_refuted : exists s w l, lenN (field_pad_bytes s w l) < w.
 Proof. exists [26085; 26412], 5, true. vm_compute. reflexivity. Qed.
 
-Lemma prec_limit_refuted :
-  exists fmt a, is_panic (format_run fmt a) = true.
+(* core::fmt refuses precisions above u16::MAX: the reason for /repo a32ed0a *)
+Lemma fmt_prec_limit : exists x p, is_panic (fmt_fixed x p) = true /\ is_panic (fmt_exp x p) = true.
+Proof. exists (f_of_Z 1), 70000. vm_compute. split; reflexivity. Qed.
+
+(* ------------------------------------------------------------ decorate *)
+
+Lemma lenN_sign_prefix n p b : lenN (sign_prefix n p b) <= 1.
+Proof. unfold sign_prefix. destruct n, p, b; cbn; lia. Qed.
+
+Lemma decorate_min_width digits neg mc md sg bl :
+  mc <= lenN (decorate_digits digits neg mc md sg bl) /\
+  lenN (sign_prefix neg sg bl) + md <= lenN (decorate_digits digits neg mc md sg bl) /\
+  exists pad, decorate_digits digits neg mc md sg bl = sign_prefix neg sg bl ++ repeatN 48 pad ++ digits.
 Proof.
-  exists [37; 46; 55; 48; 48; 48; 48; 102], (ASingle (VNum (f_of_Z 1))).
-  vm_compute. reflexivity.
+  unfold decorate_digits. rewrite !lenN_app, lenN_repeatN.
+  repeat split; try lia. eexists. reflexivity.
+Qed.
+
+Lemma render_int_min_width neg mag mc md bl pl radix zp :
+  mc <= lenN (render_int neg mag mc md bl pl radix zp) /\
+  lenN (sign_prefix neg pl bl) + md <= lenN (render_int neg mag mc md bl pl radix zp).
+Proof. unfold render_int. rewrite !lenN_app, lenN_repeatN. split; lia. Qed.
+
+Lemma render_hex_min_width neg mag mc md bl pl zx cap :
+  mc <= lenN (render_hex neg mag mc md bl pl zx cap) /\
+  lenN (sign_prefix neg pl bl) + md <= lenN (render_hex neg mag mc md bl pl zx cap).
+Proof. unfold render_hex. rewrite !lenN_app, lenN_repeatN. split; lia. Qed.
+
+(* ------------------------------------------------------------ radix digits *)
+
+(* the number denoted by a digit list, most significant first *)
+Definition digits_value (r : N) (ds : list N) : N := fold_left (fun a d => a * r + d) ds 0.
+
+Lemma fold_value_app r l1 l2 a :
+  fold_left (fun a d => a * r + d) (l1 ++ l2) a =
+  fold_left (fun a d => a * r + d) l2 (fold_left (fun a d => a * r + d) l1 a).
+Proof. apply fold_left_app. Qed.
+
+Lemma digits_value_snoc r l d : digits_value r (l ++ [d]) = digits_value r l * r + d.
+Proof. unfold digits_value. rewrite fold_left_app. reflexivity. Qed.
+
+Lemma size_nat_bound n : n < 2 ^ N.of_nat (N.size_nat n).
+Proof.
+  destruct n as [|p]; [reflexivity|]. cbn [N.size_nat].
+  induction p as [p IH|p IH|]; cbn [Pos.size_nat].
+  - rewrite Nat2N.inj_succ, N.pow_succ_r'. change (N.pos p~1) with (2 * N.pos p + 1). lia.
+  - rewrite Nat2N.inj_succ, N.pow_succ_r'. change (N.pos p~0) with (2 * N.pos p). lia.
+  - reflexivity.
+Qed.
+
+(* what the loop prepends to [acc] *)
+Lemma radix_loop_spec r (Hr : 2 <= r) : forall fuel n acc,
+  n < 2 ^ N.of_nat fuel ->
+  exists pre, radix_loop fuel r n acc = pre ++ acc /\
+              digits_value r pre = n /\
+              Forall (fun d => d < r) pre /\
+              (n = 0 -> pre = []) /\
+              (0 < n -> exists d t, pre = d :: t /\ 0 < d).
+Proof.
+  induction fuel as [|f IH]; intros n acc Hn.
+  - cbn in Hn. assert (n = 0) by lia. subst. exists []. repeat split; auto. intros; lia.
+  - cbn [radix_loop]. destruct (n =? 0) eqn:E.
+    + apply N.eqb_eq in E. subst. exists []. repeat split; auto. intros; lia.
+    + apply N.eqb_neq in E.
+      assert (Hdiv : n / r < 2 ^ N.of_nat f).
+      { rewrite Nat2N.inj_succ, N.pow_succ_r' in Hn.
+        apply N.div_lt_upper_bound; [lia|].
+        apply N.lt_le_trans with (2 * 2 ^ N.of_nat f); [exact Hn|].
+        apply N.mul_le_mono_r. exact Hr. }
+      destruct (IH (n / r) (n mod r :: acc) Hdiv) as (pre & Heq & Hval & Hall & Hz & Hnz).
+      exists (pre ++ [n mod r]). repeat split.
+      * rewrite Heq, <- app_assoc. reflexivity.
+      * rewrite digits_value_snoc, Hval.
+        pose proof (N.div_mod n r ltac:(lia)). lia.
+      * apply Forall_app. split; [exact Hall|]. constructor; [|constructor].
+        apply N.mod_lt. lia.
+      * intros; lia.
+      * intros _. destruct (N.eq_dec (n / r) 0) as [Hq|Hq].
+        -- rewrite (Hz Hq). cbn [app]. exists (n mod r), []. split; [reflexivity|].
+           pose proof (N.div_mod n r ltac:(lia)). rewrite Hq in H. lia.
+        -- destruct (Hnz ltac:(lia)) as (d & t & Hp & Hd). subst pre.
+           exists d, (t ++ [n mod r]). split; [reflexivity|exact Hd].
+Qed.
+
+(* for every radix >= 2 and every magnitude: the digits denote the number, each is a
+   digit of the radix, and there is no leading zero *)
+Lemma radix_digits_value r n : 2 <= r ->
+  digits_value r (radix_digits r n) = n /\
+  Forall (fun d => d < r) (radix_digits r n) /\
+  (0 < n -> exists d t, radix_digits r n = d :: t /\ 0 < d).
+Proof.
+  intros Hr. unfold radix_digits.
+  assert (Hn : n < 2 ^ N.of_nat (S (N.size_nat n))).
+  { rewrite Nat2N.inj_succ, N.pow_succ_r'. pose proof (size_nat_bound n). lia. }
+  destruct (radix_loop_spec r Hr _ n [] Hn) as (pre & Heq & Hval & Hall & _ & Hnz).
+  rewrite Heq, app_nil_r. auto.
+Qed.
+
+(* ------------------------------------------------------------ parser totality *)
+
+Definition is_parse_err (e : ferr) : bool :=
+  match e with
+  | ETruncated | EWidthTooLarge | EPrecTooLarge | EMissingPrecDigits | EBadConv _ => true
+  | _ => false
+  end.
+
+(* a sub-parser result: Ok with a remainder no longer than [n], or a format-string error *)
+Definition good {A} (n : nat) (r : res (A * str)) : Prop :=
+  match r with
+  | Ok (_, t) => (length t <= n)%nat
+  | Err e => is_parse_err e = true
+  | _ => False
+  end.
+
+Lemma find_char_len c s b t : find_char c s = Some (b, t) -> (length t < length s)%nat.
+Proof.
+  revert b t. induction s as [|a r IH]; intros b t H; cbn [find_char] in H; [discriminate|].
+  destruct (a =? c).
+  - inversion H; subst. cbn. lia.
+  - destruct (find_char c r) as [[b' t']|] eqn:E; [|discriminate].
+    inversion H; subst. specialize (IH _ _ eq_refl). cbn. lia.
+Qed.
+
+Lemma starts_with_len c s r : starts_with c s = Some r -> (length r < length s)%nat.
+Proof.
+  destruct s as [|a t]; cbn; [discriminate|]. destruct (a =? c); [|discriminate].
+  intros H; inversion H; subst. lia.
+Qed.
+
+Lemma parse_mkey_good rem : good (length rem) (parse_mkey rem).
+Proof.
+  unfold parse_mkey. destruct rem as [|a r]; cbn [good]; [lia|].
+  destruct (a =? 40).
+  - destruct (find_char 41 r) as [[k t]|] eqn:E; cbn [good]; [|reflexivity].
+    apply find_char_len in E. cbn. lia.
+  - cbn. lia.
+Qed.
+
+Lemma parse_cflags_len fl rem : (length (snd (parse_cflags fl rem)) <= length rem)%nat.
+Proof.
+  revert fl. induction rem as [|a r IH]; intros fl; cbn [parse_cflags]; [cbn; lia|].
+  repeat (match goal with |- context [if ?b then _ else _] => destruct b end;
+          [etransitivity; [apply IH|cbn; lia]|]).
+  cbn. lia.
+Qed.
+
+Lemma take_digits_len rem : (length (snd (take_digits rem)) <= length rem)%nat.
+Proof.
+  induction rem as [|a r IH]; cbn [take_digits]; [cbn; lia|].
+  destruct (is_digit a); [|cbn; lia].
+  destruct (take_digits r) as [d t]. cbn in *. lia.
+Qed.
+
+Lemma parse_field_width_good rem : good (length rem) (parse_field_width rem).
+Proof.
+  unfold parse_field_width. destruct (starts_with 42 rem) as [r|] eqn:E.
+  - apply starts_with_len in E. cbn. lia.
+  - pose proof (take_digits_len rem) as H. destruct (take_digits rem) as [ds t]. cbn [snd] in H.
+    destruct ds; [cbn; lia|].
+    destruct (u32_max <? _); cbn; [reflexivity|exact H].
+Qed.
+
+Lemma parse_prec_good rem : good (length rem) (parse_prec rem).
+Proof.
+  unfold parse_prec. destruct (starts_with 46 rem) as [rc|] eqn:E; [|cbn; lia].
+  apply starts_with_len in E.
+  destruct (starts_with 42 rc) as [r|] eqn:E2.
+  - apply starts_with_len in E2. cbn. lia.
+  - pose proof (take_digits_len rc) as H. destruct (take_digits rc) as [ds t]. cbn [snd] in H.
+    destruct ds.
+    + destruct rc; cbn; reflexivity.
+    + destruct (u32_max <? _); cbn; [reflexivity|lia].
+Qed.
+
+Lemma parse_len_mod_len rem : (length (snd (parse_len_mod rem)) <= length rem)%nat.
+Proof.
+  unfold parse_len_mod.
+  destruct (starts_with 104 rem) eqn:E1; [apply starts_with_len in E1; cbn; lia|].
+  destruct (starts_with 108 rem) eqn:E2; [apply starts_with_len in E2; cbn; lia|].
+  destruct (starts_with 76 rem) eqn:E3; [apply starts_with_len in E3; cbn; lia|].
+  cbn. lia.
+Qed.
+
+Lemma parse_conv_type_good rem : good (length rem) (parse_conv_type rem).
+Proof.
+  unfold parse_conv_type. destruct rem as [|c r]; [reflexivity|].
+  destruct (conv_of_char c); cbn; [lia|reflexivity].
+Qed.
+
+Lemma parse_code_good rem : good (length rem) (parse_code rem).
+Proof.
+  unfold parse_code.
+  pose proof (parse_mkey_good rem) as H1.
+  destruct (parse_mkey rem) as [[mk r1]|e| |]; cbn [obind good] in *; try assumption.
+  pose proof (parse_cflags_len no_flags r1) as H2.
+  destruct (parse_cflags no_flags r1) as [fl r2]. cbn [snd] in H2.
+  pose proof (parse_field_width_good r2) as H3.
+  destruct (parse_field_width r2) as [[w r3]|e| |]; cbn [obind good] in *; try assumption.
+  pose proof (parse_prec_good r3) as H4.
+  destruct (parse_prec r3) as [[p r4]|e| |]; cbn [obind good] in *; try assumption.
+  pose proof (parse_len_mod_len r4) as H5.
+  destruct (parse_len_mod r4) as [lm r5]. cbn [snd] in H5.
+  pose proof (parse_conv_type_good r5) as H6.
+  destruct (parse_conv_type r5) as [[ct r6]|e| |]; cbn [obind good] in *; try assumption.
+  lia.
+Qed.
+
+Definition parse_outcome_ok (r : res (list part)) : Prop :=
+  match r with
+  | Ok _ => True
+  | Err e => is_parse_err e = true
+  | _ => False
+  end.
+
+Lemma parse_codes_total : forall fuel rem, (length rem < fuel)%nat -> parse_outcome_ok (parse_codes fuel rem).
+Proof.
+  induction fuel as [|f IH]; intros rem Hlen; [lia|].
+  cbn [parse_codes]. destruct rem as [|a r0] eqn:Erem; [exact I|]. rewrite <- Erem in *.
+  destruct (find_char 37 rem) as [[lit r]|] eqn:E; [|exact I].
+  apply find_char_len in E.
+  pose proof (parse_code_good r) as Hg.
+  destruct (parse_code r) as [[c r']|e| |]; cbn [obind good] in *; try assumption.
+  assert (Hr' : (length r' < f)%nat) by lia.
+  specialize (IH r' Hr').
+  destruct (parse_codes f r') as [rest|e| |]; cbn [obind parse_outcome_ok] in *; assumption.
+Qed.
+
+(* every format string yields codes or one of the five format-string errors; never a
+   panic, never out of fuel *)
+Lemma format_parse_total fmt : parse_outcome_ok (parse_format_codes fmt).
+Proof. unfold parse_format_codes. apply parse_codes_total. lia. Qed.
+
+(* ------------------------------------------------------------ decimal strings *)
+
+(* the number written by a string of ASCII digits *)
+Definition str_value (s : str) : N := digits_value 10 (map (fun c => c - 48) s).
+Definition all_digits (s : str) : Prop := Forall (fun c => 48 <= c <= 57) s.
+
+Lemma str_value_app a b : str_value (a ++ b) = fold_left (fun x d => x * 10 + d) (map (fun c => c - 48) b) (str_value a).
+Proof. unfold str_value, digits_value. rewrite map_app, fold_left_app. reflexivity. Qed.
+
+Lemma str_value_snoc a c : str_value (a ++ [c]) = str_value a * 10 + (c - 48).
+Proof. rewrite str_value_app. reflexivity. Qed.
+
+Lemma str_value_dec_digits n : str_value (dec_digits n) = n /\ all_digits (dec_digits n) /\ 1 <= lenN (dec_digits n).
+Proof.
+  unfold dec_digits. destruct (n =? 0) eqn:E.
+  - apply N.eqb_eq in E. subst. repeat split; [repeat constructor; lia|cbn; lia].
+  - apply N.eqb_neq in E.
+    destruct (radix_digits_value 10 n ltac:(lia)) as (Hv & Hall & Hnz).
+    repeat split.
+    + unfold str_value. rewrite map_map.
+      rewrite (map_ext _ (fun d => d)); [rewrite map_id; exact Hv|]. intros; lia.
+    + unfold all_digits. apply Forall_map. eapply Forall_impl; [|exact Hall]. cbn; intros; lia.
+    + destruct (Hnz ltac:(lia)) as (d & t & Hd & _). rewrite Hd. cbn [map]. rewrite lenN_cons. lia.
+Qed.
+
+Lemma str_value_lead_zeros k s : str_value (repeatN 48 k ++ s) = str_value s.
+Proof.
+  induction k as [|k IH] using N.peano_ind; [reflexivity|].
+  rewrite repeatN_succ. cbn [app]. unfold str_value, digits_value in *. cbn [map fold_left].
+  exact IH.
+Qed.
+
+Lemma str_value_trail_zeros s k : str_value (s ++ repeatN 48 k) = str_value s * 10 ^ k.
+Proof.
+  induction k as [|k IH] using N.peano_ind.
+  - rewrite repeatN_0, app_nil_r. cbn. lia.
+  - replace (N.succ k) with (k + 1) by lia. rewrite repeatN_add, app_assoc.
+    change (repeatN 48 1) with [48]. rewrite str_value_snoc, IH, N.pow_add_r. cbn. lia.
+Qed.
+
+Lemma all_digits_app a b : all_digits a -> all_digits b -> all_digits (a ++ b).
+Proof. intros; apply Forall_app; auto. Qed.
+
+Lemma all_digits_zeros k : all_digits (repeatN 48 k).
+Proof. eapply Forall_impl; [|apply repeatN_all]. cbn; intros; lia. Qed.
+
+(* ------------------------------------------------------------ round-half-even *)
+
+Local Open Scope Z_scope.
+
+(* D is num/den rounded to the nearest integer, ties to even *)
+Definition is_rhe (D num den : Z) : Prop :=
+  2 * Z.abs (D * den - num) <= den /\
+  (2 * Z.abs (D * den - num) = den -> Z.even D = true).
+
+Lemma rhe_correct num den : 0 <= num -> 0 < den -> is_rhe (rhe num den) num den /\ 0 <= rhe num den.
+Proof.
+  intros Hn Hd. unfold rhe, is_rhe.
+  pose proof (Z.div_mod num den ltac:(lia)) as Hdm.
+  pose proof (Z.mod_pos_bound num den Hd) as Hr.
+  pose proof (Z.div_pos num den Hn Hd) as Hq.
+  set (q := num / den) in *. set (r := num mod den) in *.
+  destruct (Z.compare_spec (2 * r) den) as [E|E|E].
+  - destruct (Z.even q) eqn:Ev.
+    + replace (q * den - num) with (- r) by lia. rewrite Z.abs_opp, Z.abs_eq by lia.
+      repeat split; auto; lia.
+    + replace ((q + 1) * den - num) with (den - r) by lia. rewrite Z.abs_eq by lia.
+      repeat split; try lia. intros _. rewrite Z.even_add, Ev. reflexivity.
+  - replace (q * den - num) with (- r) by lia. rewrite Z.abs_opp, Z.abs_eq by lia.
+    repeat split; try lia.
+  - replace ((q + 1) * den - num) with (den - r) by lia. rewrite Z.abs_eq by lia.
+    repeat split; try lia.
+Qed.
+
+Lemma rhe_exact a den : 0 < den -> rhe (a * den) den = a.
+Proof.
+  intros Hd. unfold rhe. rewrite Z.div_mul, Z.mod_mul by lia.
+  destruct (Z.compare_spec (2 * 0) den); lia.
+Qed.
+
+(* ------------------------------------------------------------ %f digits *)
+
+Lemma pow10_split a b : 0 <= a -> 0 <= b -> 10 ^ (a + b) = 10 ^ a * 10 ^ b.
+Proof. intros. apply Z.pow_add_r; lia. Qed.
+
+Lemma pow10_pos k : 0 <= k -> 0 < 10 ^ k.
+Proof. intros. apply Z.pow_pos_nonneg; lia. Qed.
+Lemma pow2_pos k : 0 <= k -> 0 < 2 ^ k.
+Proof. intros. apply Z.pow_pos_nonneg; lia. Qed.
+
+(* the round-half-even integer of  m * 2^e * 10^p  — what %f must print, point removed *)
+Definition fixed_spec (m e : Z) (p : N) : Z :=
+  rhe (m * 2 ^ (Z.max e 0) * 10 ^ (Z.of_N p)) (2 ^ (Z.max (- e) 0)).
+
+Lemma scaled_rhe_nonneg_k m e k : 0 <= k ->
+  scaled_rhe m e k = rhe (m * 2 ^ (Z.max e 0) * 10 ^ k) (2 ^ (Z.max (- e) 0)).
+Proof.
+  intros Hk. unfold scaled_rhe. rewrite (Z.max_l k 0), (Z.max_r (- k) 0) by lia.
+  rewrite Z.pow_0_r, Z.mul_1_r. reflexivity.
+Qed.
+
+(* once every fraction digit of the binary value is out, further digits are zeros *)
+Lemma fixed_spec_beyond m e (p q : N) :
+  Z.max (- e) 0 <= Z.of_N q -> (q <= p)%N ->
+  fixed_spec m e p = fixed_spec m e q * 10 ^ (Z.of_N (p - q)).
+Proof.
+  intros Hq Hpq. unfold fixed_spec.
+  set (d := Z.max (- e) 0) in *.
+  assert (Hd : 0 <= d) by (unfold d; lia).
+  assert (H10 : forall n, d <= n -> 10 ^ n = (5 ^ d * 10 ^ (n - d)) * 2 ^ d).
+  { intros n Hn. replace n with (d + (n - d)) at 1 by lia. rewrite pow10_split by lia.
+    change 10 with (5 * 2) at 1. rewrite Z.pow_mul_l. ring. }
+  assert (Hden : 0 < 2 ^ d) by (apply pow2_pos; lia).
+  rewrite (H10 (Z.of_N p)) by lia. rewrite (H10 (Z.of_N q)) by lia.
+  rewrite !Z.mul_assoc.
+  rewrite !rhe_exact by exact Hden.
+  replace (Z.of_N p - d) with ((Z.of_N q - d) + Z.of_N (p - q)) by lia.
+  rewrite pow10_split by lia. ring.
+Qed.
+
+Lemma lenN_firstn_skipn {A} (l : list A) k : (k <= length l)%nat ->
+  firstn k l ++ skipn k l = l /\ lenN (skipn k l) = (lenN l - N.of_nat k)%N.
+Proof.
+  intros H. split; [apply firstn_skipn|]. unfold lenN. rewrite skipn_length. lia.
+Qed.
+
+Lemma fixed_parts_correct m e p : 0 <= m ->
+  let '(ip, fp) := fixed_parts m e p in
+  lenN fp = p /\ (1 <= lenN ip)%N /\ all_digits (ip ++ fp) /\
+  Z.of_N (str_value (ip ++ fp)) = fixed_spec m e p.
+Proof.
+  intros Hm. unfold fixed_parts, ch_0. cbv zeta.
+  set (p' := N.min p (Z.to_N (Z.max (- e) 0))).
+  set (D := Z.to_N (scaled_rhe m e (Z.of_N p'))).
+  destruct (str_value_dec_digits D) as (Hv & Hall & Hlen).
+  set (ds0 := dec_digits D) in *.
+  set (ds := repeatN 48 (p' + 1 - lenN ds0) ++ ds0).
+  assert (Hlds : (p' + 1 <= lenN ds)%N).
+  { unfold ds. rewrite lenN_app, lenN_repeatN. lia. }
+  assert (Hk : (N.to_nat (lenN ds - p') <= length ds)%nat).
+  { unfold lenN in *. lia. }
+  destruct (lenN_firstn_skipn ds _ Hk) as (Hsplit & Hskip).
+  rewrite N2Nat.id in Hskip.
+  repeat split.
+  - rewrite lenN_app, Hskip, lenN_repeatN. unfold p'. lia.
+  - assert (lenN (firstn (N.to_nat (lenN ds - p')) ds) = lenN ds - p')%N.
+    { unfold lenN. rewrite firstn_length. unfold lenN in Hk. lia. }
+    lia.
+  - rewrite app_assoc, Hsplit. apply all_digits_app; [|apply all_digits_zeros].
+    unfold ds. apply all_digits_app; [apply all_digits_zeros|exact Hall].
+  - rewrite app_assoc, Hsplit, str_value_trail_zeros. unfold ds.
+    rewrite str_value_lead_zeros, Hv.
+    assert (HD : Z.of_N D = fixed_spec m e p').
+    { unfold D. rewrite scaled_rhe_nonneg_k by lia. rewrite Z2N.id; [reflexivity|].
+      apply rhe_correct.
+      - apply Z.mul_nonneg_nonneg; [apply Z.mul_nonneg_nonneg; [lia|]|];
+          apply Z.lt_le_incl; [apply pow2_pos; lia|apply pow10_pos; lia].
+      - apply pow2_pos; lia. }
+    rewrite N2Z.inj_mul, N2Z.inj_pow, HD. cbn [Z.of_N].
+    destruct (N.le_gt_cases p (Z.to_N (Z.max (- e) 0))) as [Hle|Hgt].
+    + assert (p' = p) by (unfold p'; lia). rewrite H, N.sub_diag. cbn. lia.
+    + assert (Hp' : p' = Z.to_N (Z.max (- e) 0)) by (unfold p'; lia).
+      symmetry. apply fixed_spec_beyond; lia.
+Qed.
+
+(* the correctly rounded decimal: |D - x*10^p| <= 1/2, ties to the even D *)
+Lemma fixed_spec_is_rhe m e p : 0 <= m ->
+  is_rhe (fixed_spec m e p) (m * 2 ^ (Z.max e 0) * 10 ^ (Z.of_N p)) (2 ^ (Z.max (- e) 0)).
+Proof.
+  intros Hm. apply rhe_correct.
+  - apply Z.mul_nonneg_nonneg; [apply Z.mul_nonneg_nonneg; [lia|]|];
+      apply Z.lt_le_incl; [apply pow2_pos; lia|apply pow10_pos; lia].
+  - apply pow2_pos; lia.
+Qed.
+
+Local Open Scope N_scope.
+Local Open Scope outcome_scope.
+
+(* the digit string render_float_def builds: the formatter at a capped precision,
+   then zeros (as /repo a32ed0a does) *)
+Definition capped_fixed (x : f64) (prec : N) : res str :=
+  let fmt_prec := N.min prec fmt_prec_max in
+  do d <- fmt_fixed x fmt_prec; Ok (d ++ repeatN 48 (prec - fmt_prec)).
+
+Lemma fixed_parts_cap m e p c : (Z.max (- e) 0 <= Z.of_N c)%Z -> c <= p ->
+  fixed_parts m e p = (fst (fixed_parts m e c), snd (fixed_parts m e c) ++ repeatN 48 (p - c)).
+Proof.
+  intros Hc Hcp. unfold fixed_parts, ch_0. cbv zeta.
+  set (q := Z.to_N (Z.max (- e) 0)).
+  assert (Hq : q <= c) by (unfold q; lia).
+  replace (N.min p q) with q by lia. replace (N.min c q) with q by lia.
+  cbn [fst snd]. f_equal. rewrite <- app_assoc. f_equal.
+  replace (p - q) with ((c - q) + (p - c)) by lia. apply repeatN_add.
+Qed.
+
+Lemma capped_fixed_gen (m e : Z) prec : (- 65535 <= e)%Z ->
+  (do d <- (if fmt_prec_max <? N.min prec fmt_prec_max
+            then Panic "format.rs:render_float_def:format! precision above u16::MAX"
+            else Ok (fixed_string m e (N.min prec fmt_prec_max)));
+   Ok (d ++ repeatN 48 (prec - N.min prec fmt_prec_max))) = (Ok (fixed_string m e prec) : res str).
+Proof.
+  intros He.
+  destruct (N.le_gt_cases prec fmt_prec_max) as [Hle|Hgt].
+  - replace (N.min prec fmt_prec_max) with prec by lia.
+    replace (fmt_prec_max <? prec) with false by (symmetry; apply N.ltb_ge; exact Hle).
+    cbn [obind]. rewrite N.sub_diag, repeatN_0, app_nil_r. reflexivity.
+  - replace (N.min prec fmt_prec_max) with fmt_prec_max by lia.
+    rewrite N.ltb_irrefl. cbn [obind]. f_equal.
+    unfold fixed_string.
+    rewrite (fixed_parts_cap m e prec fmt_prec_max) by (unfold fmt_prec_max in *; lia).
+    destruct (fixed_parts m e fmt_prec_max) as [ip fp]. cbn [fst snd].
+    replace (fmt_prec_max =? 0) with false by reflexivity.
+    replace (prec =? 0) with false by (symmetry; apply N.eqb_neq; unfold fmt_prec_max in Hgt; lia).
+    rewrite <- app_assoc. reflexivity.
+Qed.
+
+Lemma capped_fixed_finite s m e prec : (- 65535 <= e)%Z ->
+  capped_fixed (S754_finite s m e) prec = Ok (fixed_string (Z.pos m) e prec).
+Proof. intros He. unfold capped_fixed, fmt_fixed. cbv zeta. apply capped_fixed_gen. exact He. Qed.
+
+Lemma capped_fixed_zero s prec :
+  capped_fixed (S754_zero s) prec = Ok (fixed_string 0 0 prec).
+Proof. unfold capped_fixed, fmt_fixed. cbv zeta. apply capped_fixed_gen. lia. Qed.
+
+Lemma render_float_def_digits value prec zp plus blank ensure_pt trim :
+  render_float_def value prec zp plus blank ensure_pt trim =
+  do d <- capped_fixed (f_abs value) prec;
+  Ok (decorate_digits
+        (if (prec =? 0) && ensure_pt then d ++ [46]
+         else if negb (prec =? 0) && trim then
+                (if ensure_pt then trim_end_zeros d else strip_dot_suffix (trim_end_zeros d))
+              else d)
+        (is_neg value) zp 0 plus blank).
+Proof.
+  unfold render_float_def, capped_fixed. cbv zeta.
+  destruct (fmt_fixed (f_abs value) (N.min prec fmt_prec_max)); reflexivity.
+Qed.
+
+(* %f digits: for every finite double (any exponent a binary64 can have) and EVERY
+   precision, the digit string is ip[.fp] with exactly prec fraction digits and
+   ip.fp is the exact binary value rounded half-even at that precision *)
+Lemma fixed_digits_correct s m e prec : (- 65535 <= e)%Z ->
+  exists ip fp,
+    capped_fixed (S754_finite s m e) prec = Ok (if prec =? 0 then ip else ip ++ 46 :: fp) /\
+    lenN fp = prec /\ 1 <= lenN ip /\ all_digits (ip ++ fp) /\
+    is_rhe (Z.of_N (str_value (ip ++ fp)))
+           (Z.pos m * 2 ^ (Z.max e 0) * 10 ^ (Z.of_N prec)) (2 ^ (Z.max (- e) 0)).
+Proof.
+  intros He. rewrite capped_fixed_finite by exact He. unfold fixed_string.
+  pose proof (fixed_parts_correct (Z.pos m) e prec ltac:(lia)) as H.
+  destruct (fixed_parts (Z.pos m) e prec) as [ip fp].
+  destruct H as (H1 & H2 & H3 & H4).
+  exists ip, fp. repeat split; auto.
+  - rewrite H4. apply fixed_spec_is_rhe. lia.
+  - rewrite H4. apply fixed_spec_is_rhe. lia.
+Qed.
+
+
+(* ------------------------------------------------------------ the argument machines *)
+
+Section Machines.
+Variable lf : f64 -> Z.
+
+Definition code_needs (c : code) : N :=
+  (match fw c with Some FExternal => 1 | _ => 0 end) +
+  (match prec c with Some FExternal => 1 | _ => 0 end) +
+  (if conv_eqb (ctype c) CPercent then 0 else 1).
+
+Fixpoint needed (parts : list part) : N :=
+  match parts with
+  | [] => 0
+  | PLit _ :: ps => needed ps
+  | PCode c :: ps => code_needs c + needed ps
+  end.
+
+Lemma take_width_spec w rest used wt rest' used' :
+  take_width w rest used = Ok (wt, rest', used') ->
+  let k := match w with Some FExternal => 1 | _ => 0 end in
+  lenN rest = k + lenN rest' /\ used' = used + k /\
+  (w = None -> wt = WNone) /\
+  (forall v, w = Some (FInline v) -> wt = WInline v) /\
+  (w = Some FExternal -> exists t, rest = t :: rest' /\ wt = WThunk t).
+Proof.
+  unfold take_width. destruct w as [[v|]|]; intros H.
+  - inversion H; subst. cbn. repeat split; try lia; try congruence; try discriminate.
+  - destruct rest as [|t r]; [discriminate|]. inversion H; subst.
+    cbn zeta. rewrite lenN_cons. repeat split; try lia; try discriminate.
+    intros _. exists t. split; reflexivity.
+  - inversion H; subst. cbn. repeat split; try lia; try congruence; try discriminate.
+Qed.
+
+(* one directive: how many items it takes, and its field is at least as wide as the width *)
+Lemma array_code_spec c rest used s rest' used' :
+  array_code lf c rest used = Ok (s, rest', used') ->
+  lenN rest = code_needs c + lenN rest' /\ used' = used + code_needs c /\
+  (forall v, fw c = Some (FInline v) -> v <= lenN s) /\
+  (forall x t v, fw c = Some FExternal -> rest = VNum x :: t -> try_to_u32 x = Some v -> v <= lenN s).
+Proof.
+  unfold array_code, code_needs. intros H.
+  destruct (take_width (fw c) rest used) as [[[fwt r1] u1]|?| |] eqn:E1; cbn [obind] in H; try discriminate.
+  destruct (take_width (prec c) r1 u1) as [[[prt r2] u2]|?| |] eqn:E2; cbn [obind] in H; try discriminate.
+  apply take_width_spec in E1. apply take_width_spec in E2. cbv zeta in E1, E2.
+  destruct E1 as (L1 & U1 & N1 & I1 & X1). destruct E2 as (L2 & U2 & _ & _ & _).
+  match type of H with obind ?a _ = _ => destruct a as [precv|?| |] eqn:EP end; cbn [obind] in H; try discriminate.
+  match type of H with obind ?a _ = _ => destruct a as [fwv|?| |] eqn:EF end; cbn [obind] in H; try discriminate.
+  assert (HW : (forall v, fw c = Some (FInline v) -> fwv = v) /\
+               (forall x t v, fw c = Some FExternal -> rest = VNum x :: t -> try_to_u32 x = Some v -> fwv = v)).
+  { split.
+    - intros v Hv. rewrite Hv in EF. rewrite (I1 v Hv) in EF. cbn in EF. congruence.
+    - intros x t v Hx Hr Hv. rewrite Hx in EF. destruct (X1 Hx) as (t0 & Hr0 & Hw). subst fwt.
+      rewrite Hr in Hr0. inversion Hr0; subst t0. cbn in EF. rewrite Hv in EF. congruence. }
+  destruct HW as (HW1 & HW2).
+  destruct (conv_eqb (ctype c) CPercent).
+  - inversion H; subst. pose proof (pad_reaches_width [37] fwv (fl_left (flags c))).
+    repeat split; try lia.
+    + intros v Hv. rewrite <- (HW1 v Hv). assumption.
+    + intros x t v Hx Hr Hv. rewrite <- (HW2 x t v Hx Hr Hv). assumption.
+  - destruct r2 as [|item r3]; [discriminate|].
+    destruct (do_format_code lf c fwv precv item) as [body|?| |]; cbn [obind] in H; try discriminate.
+    inversion H; subst. pose proof (pad_reaches_width body fwv (fl_left (flags c))).
+    rewrite lenN_cons in L2.
+    repeat split; try lia.
+    + intros v Hv. rewrite <- (HW1 v Hv). assumption.
+    + intros x t v Hx Hr Hv. rewrite <- (HW2 x t v Hx Hr Hv). assumption.
+Qed.
+
+(* std.format on an array succeeds only when the array has exactly as many items as the
+   directives consume (one per conversion other than %%, one per * width, one per * precision) *)
+Lemma format_array_count : forall parts rest used s,
+  format_array lf parts rest used = Ok s -> lenN rest = needed parts.
+Proof.
+  induction parts as [|p ps IH]; intros rest used s H; cbn [format_array needed] in *.
+  - destruct rest; [reflexivity|discriminate].
+  - destruct p as [l|c].
+    + destruct (format_array lf ps rest used) eqn:E; cbn [obind] in H; try discriminate.
+      eapply IH; eauto.
+    + destruct (array_code lf c rest used) as [[[s1 r1] u1]|?| |] eqn:E1; cbn [obind] in H; try discriminate.
+      destruct (format_array lf ps r1 u1) eqn:E2; cbn [obind] in H; try discriminate.
+      apply array_code_spec in E1. apply IH in E2. lia.
+Qed.
+
+(* too many items is reported as such, with the number the directives expected *)
+Lemma format_array_too_many : forall parts rest used s,
+  format_array lf parts rest used <> Ok s \/ lenN rest = needed parts.
+Proof. intros. destruct (format_array lf parts rest used) eqn:E; try (left; congruence). right. eapply format_array_count; eauto. Qed.
+
+Lemma object_code_width c fs s v :
+  object_code lf c fs = Ok s -> fw c = Some (FInline v) -> v <= lenN s.
+Proof.
+  unfold object_code. intros H Hv. rewrite Hv in H. cbn [obind] in H.
+  destruct (prec c) as [[pv|]|]; cbn [obind] in H; try discriminate.
+  - destruct (conv_eqb (ctype c) CPercent).
+    + inversion H; subst. apply pad_reaches_width.
+    + destruct (mkey c); [|discriminate]. destruct (find_field s0 fs); [|discriminate].
+      destruct (do_format_code lf c v pv f); cbn [obind] in H; try discriminate.
+      inversion H; subst. apply pad_reaches_width.
+  - destruct (conv_eqb (ctype c) CPercent).
+    + inversion H; subst. apply pad_reaches_width.
+    + destruct (mkey c); [|discriminate]. destruct (find_field s0 fs); [|discriminate].
+      destruct (do_format_code lf c v 0 f); cbn [obind] in H; try discriminate.
+      inversion H; subst. apply pad_reaches_width.
+Qed.
+
+End Machines.
+
+(* ------------------------------------------------------------ no panic, no divergence *)
+
+Definition finite_val (v : fval) : Prop :=
+  match v with VNum x => f_is_finite x = true | _ => True end.
+
+Definition no_crash {A} (r : res A) : Prop :=
+  match r with Ok _ | Err _ => True | _ => False end.
+
+Lemma no_crash_bind {A B} (x : res A) (f : A -> res B) :
+  no_crash x -> (forall a, x = Ok a -> no_crash (f a)) -> no_crash (obind x f).
+Proof. destruct x; cbn; intros; auto. Qed.
+
+Lemma render_float_def_no_crash x prec zp pl bl en tr :
+  f_is_finite x = true -> no_crash (render_float_def x prec zp pl bl en tr).
+Proof.
+  intros Hf. unfold render_float_def. cbv zeta. apply no_crash_bind; [|intros; exact I].
+  unfold fmt_fixed.
+  replace (fmt_prec_max <? N.min prec fmt_prec_max) with false by (symmetry; apply N.ltb_ge; lia).
+  destruct x; cbn in *; try discriminate; exact I.
+Qed.
+
+Lemma render_float_exp_no_crash x prec zp pl bl en tr up :
+  f_is_finite x = true -> no_crash (render_float_exp x prec zp pl bl en tr up).
+Proof.
+  intros Hf. unfold render_float_exp. cbv zeta. apply no_crash_bind; [|intros [ds E] _; exact I].
+  unfold fmt_exp.
+  replace (fmt_prec_max <=? N.min prec (fmt_prec_max - 1)) with false
+    by (symmetry; apply N.leb_gt; unfold fmt_prec_max; lia).
+  destruct x; cbn in *; try discriminate; exact I.
+Qed.
+
+Lemma trunc_mag_finite x : f_is_finite x = true -> exists n, trunc_mag x = Some n.
+Proof. destruct x; cbn; try discriminate; intros _; eexists; reflexivity. Qed.
+
+Section NoCrash.
+Variable lf : f64 -> Z.
+
+Lemma do_format_code_no_crash c fwv precv v :
+  conv_eqb (ctype c) CPercent = false -> finite_val v -> no_crash (do_format_code lf c fwv precv v).
+Proof.
+  intros Hc Hv. unfold do_format_code. cbv zeta.
+  destruct (ctype c); try discriminate Hc;
+    destruct v as [x|s|t sh]; cbn [need_num obind no_crash type_of]; try exact I;
+    cbn [finite_val] in Hv.
+  all: try (destruct (trunc_mag_finite x Hv) as (n & Hn); rewrite Hn; exact I).
+  all: try (apply render_float_exp_no_crash; exact Hv).
+  all: try (apply render_float_def_no_crash; exact Hv).
+  all: try (match goal with |- no_crash (if ?b then _ else _) => destruct b end;
+            [apply render_float_exp_no_crash|apply render_float_def_no_crash]; exact Hv).
+  - destruct (try_to_u32 x) as [n|]; [destruct (is_scalar n)|]; exact I.
+  - destruct (lenN s =? 1); exact I.
+Qed.
+
+Lemma take_width_no_crash w rest used : no_crash (take_width w rest used).
+Proof. unfold take_width. destruct w as [[|]|]; try exact I. destruct rest; exact I. Qed.
+
+Lemma eval_width_no_crash w f b : no_crash (eval_width w f b).
+Proof.
+  unfold eval_width. destruct w as [|v|[x|s|t sh]]; try exact I.
+  destruct (try_to_u32 x); exact I.
+Qed.
+
+Lemma take_width_finite w rest used wt rest' used' :
+  Forall finite_val rest -> take_width w rest used = Ok (wt, rest', used') -> Forall finite_val rest'.
+Proof.
+  unfold take_width. intros Hf H. destruct w as [[|]|]; try (inversion H; subst; exact Hf).
+  destruct rest; [discriminate|]. inversion H; subst. inversion Hf; assumption.
+Qed.
+
+Lemma array_code_no_crash c rest used :
+  Forall finite_val rest ->
+  no_crash (array_code lf c rest used) /\
+  (forall s rest' used', array_code lf c rest used = Ok (s, rest', used') -> Forall finite_val rest').
+Proof.
+  intros Hf. unfold array_code.
+  pose proof (take_width_no_crash (fw c) rest used) as N1.
+  destruct (take_width (fw c) rest used) as [[[fwt r1] u1]|?| |] eqn:E1; cbn [obind no_crash] in *;
+    try (split; [exact I|discriminate]); try contradiction.
+  pose proof (take_width_finite _ _ _ _ _ _ Hf E1) as Hf1.
+  pose proof (take_width_no_crash (prec c) r1 u1) as N2.
+  destruct (take_width (prec c) r1 u1) as [[[prt r2] u2]|?| |] eqn:E2; cbn [obind no_crash] in *;
+    try (split; [exact I|discriminate]); try contradiction.
+  pose proof (take_width_finite _ _ _ _ _ _ Hf1 E2) as Hf2.
+  match goal with |- no_crash (obind ?a _) /\ _ =>
+    assert (NP : no_crash a) by (destruct (prec c); [destruct (uses_prec (ctype c)); [apply eval_width_no_crash|exact I]|exact I]);
+    destruct a as [precv|?| |]; cbn [obind no_crash] in *;
+    try (split; [exact I|discriminate]); try contradiction end.
+  match goal with |- no_crash (obind ?a _) /\ _ =>
+    assert (NF : no_crash a) by (destruct (fw c); [apply eval_width_no_crash|exact I]);
+    destruct a as [fwv|?| |]; cbn [obind no_crash] in *;
+    try (split; [exact I|discriminate]); try contradiction end.
+  destruct (conv_eqb (ctype c) CPercent) eqn:EC.
+  - split; [exact I|]. intros s r' u' H. inversion H; subst. exact Hf2.
+  - destruct r2 as [|item r3]; [split; [exact I|discriminate]|].
+    inversion Hf2 as [|? ? Hitem Hr3]; subst.
+    pose proof (do_format_code_no_crash c fwv precv item EC Hitem) as ND.
+    destruct (do_format_code lf c fwv precv item); cbn [obind no_crash] in *;
+      try (split; [exact I|discriminate]); try contradiction.
+    split; [exact I|]. intros s r' u' H. inversion H; subst. exact Hr3.
+Qed.
+
+Lemma format_array_no_crash : forall parts rest used,
+  Forall finite_val rest -> no_crash (format_array lf parts rest used).
+Proof.
+  induction parts as [|p ps IH]; intros rest used Hf; cbn [format_array].
+  - destruct rest; exact I.
+  - destruct p as [l|c].
+    + apply no_crash_bind; [apply IH; exact Hf|intros; exact I].
+    + destruct (array_code_no_crash c rest used Hf) as (NC & Hfin).
+      destruct (array_code lf c rest used) as [[[s1 r1] u1]|?| |]; cbn [obind no_crash] in *; try exact I; try contradiction.
+      apply no_crash_bind; [apply IH; eapply Hfin; reflexivity|intros; exact I].
+Qed.
+
+Lemma find_field_finite k fs v :
+  Forall (fun kv => finite_val (snd kv)) fs -> find_field k fs = Some v -> finite_val v.
+Proof.
+  induction fs as [|[k' v'] r IH]; cbn [find_field]; intros Hf H; [discriminate|].
+  inversion Hf; subst. destruct (str_eqb k k'); [inversion H; subst; assumption|auto].
+Qed.
+
+Lemma object_code_no_crash c fs :
+  Forall (fun kv => finite_val (snd kv)) fs -> no_crash (object_code lf c fs).
+Proof.
+  intros Hf. unfold object_code.
+  destruct (fw c) as [[v|]|]; cbn [obind no_crash]; try exact I;
+  (destruct (prec c) as [[pv|]|]; cbn [obind no_crash]; try exact I;
+   (destruct (conv_eqb (ctype c) CPercent) eqn:EC; [exact I|];
+    destruct (mkey c) as [k|]; [|exact I];
+    destruct (find_field k fs) as [item|] eqn:EF; [|exact I];
+    apply no_crash_bind; [|intros; exact I];
+    apply do_format_code_no_crash; [exact EC|eapply find_field_finite; eauto])).
+Qed.
+
+Lemma format_object_no_crash : forall parts fs,
+  Forall (fun kv => finite_val (snd kv)) fs -> no_crash (format_object lf parts fs).
+Proof.
+  induction parts as [|p ps IH]; intros fs Hf; cbn [format_object]; [exact I|].
+  destruct p as [l|c].
+  - apply no_crash_bind; [apply IH; exact Hf|intros; exact I].
+  - apply no_crash_bind; [apply object_code_no_crash; exact Hf|intros].
+    apply no_crash_bind; [apply IH; exact Hf|intros; exact I].
+Qed.
+
+Definition finite_args (a : fargs) : Prop :=
+  match a with
+  | AArray l => Forall finite_val l
+  | AObject fs => Forall (fun kv => finite_val (snd kv)) fs
+  | ASingle v => finite_val v
+  end.
+
+(* std.format never panics and never loops: for every format string, every argument
+   value (numbers finite, C06) and whatever libm's log10 returns, the outcome is a
+   string or one of the listed errors *)
+Lemma format_no_crash fmt a : finite_args a -> no_crash (format lf fmt a).
+Proof.
+  intros Hf. unfold format.
+  pose proof (format_parse_total fmt) as HP.
+  destruct (parse_format_codes fmt) as [parts|e| |]; cbn [obind parse_outcome_ok no_crash] in *; try exact I; try contradiction.
+  destruct a as [l|fs|v]; cbn [finite_args] in Hf.
+  - apply format_array_no_crash; exact Hf.
+  - apply format_object_no_crash; exact Hf.
+  - apply format_array_no_crash. constructor; [exact Hf|constructor].
+Qed.
+
+End NoCrash.
+
+(* ------------------------------------------------------------ integer conversions *)
+
+(* %o %x %X: sign, zero padding, then (prefix and) the radix digits of the exact magnitude *)
+Lemma render_int_digits neg mag mc md bl pl radix zp :
+  exists pad,
+    render_int neg mag mc md bl pl radix zp =
+    sign_prefix neg pl bl ++ repeatN 48 pad ++
+      (if mag =? 0 then [48] else zp ++ map (fun d => 48 + d) (radix_digits radix mag)).
+Proof. unfold render_int. eexists. reflexivity. Qed.
+
+Lemma render_hex_digits neg mag mc md bl pl zx cap :
+  exists pad,
+    render_hex neg mag mc md bl pl zx cap =
+    (sign_prefix neg pl bl ++ (if zx then (if cap then [48; 88] else [48; 120]) else [])) ++
+      repeatN 48 pad ++
+      (if mag =? 0 then [48] else map (hex_numeral cap) (radix_digits 16 mag)).
+Proof. unfold render_hex. eexists. reflexivity. Qed.
+
+(* %d %i %u below 2^53: the digits are the exact integer *)
+Lemma decimal_exact_below_2p53 lf c fwv precv x n :
+  ctype c = CDecimal -> trunc_mag x = Some n -> n < 2 ^ 53 ->
+  do_format_code lf c fwv precv (VNum x) =
+  Ok (decorate_digits (dec_digits n) (is_neg_trunc x)
+        (if fl_zero (flags c) && negb (fl_left (flags c)) then fwv else 0)
+        (match prec c with Some _ => precv | None => 0 end)
+        (fl_plus (flags c)) (fl_blank (flags c))).
+Proof.
+  intros Hc Ht Hn. unfold do_format_code. cbv zeta. rewrite Hc. cbn [need_num obind].
+  rewrite Ht. unfold display_int.
+  replace (n <? 2 ^ 53) with true by (symmetry; apply N.ltb_lt; exact Hn).
+  destruct (prec c); reflexivity.
+Qed.
+
+(* ------------------------------------------------------------ %g: shape *)
+
+Lemma render_float_def_shape x prec zp pl bl en tr :
+  f_is_finite x = true ->
+  exists d, render_float_def x prec zp pl bl en tr = Ok (decorate_digits d (is_neg x) zp 0 pl bl).
+Proof.
+  intros Hf. rewrite render_float_def_digits. unfold capped_fixed, fmt_fixed. cbv zeta.
+  replace (fmt_prec_max <? N.min prec fmt_prec_max) with false by (symmetry; apply N.ltb_ge; lia).
+  destruct x; cbn in Hf; try discriminate; cbn [f_abs SFabs obind]; eexists; reflexivity.
+Qed.
+
+Lemma render_float_exp_shape x prec zp pl bl en tr up :
+  f_is_finite x = true ->
+  exists d, render_float_exp x prec zp pl bl en tr up = Ok (decorate_digits d (is_neg x) zp 0 pl bl).
+Proof.
+  intros Hf. unfold render_float_exp, fmt_exp. cbv zeta.
+  replace (fmt_prec_max <=? N.min prec (fmt_prec_max - 1)) with false
+    by (symmetry; apply N.leb_gt; unfold fmt_prec_max; lia).
+  destruct x; cbn in Hf; try discriminate; cbn [f_abs SFabs obind].
+  - eexists; reflexivity.
+  - destruct (exp_parts (Z.pos m) e (N.min prec (fmt_prec_max - 1))) as [ds E].
+    eexists; reflexivity.
+Qed.
+
+(* %g %G, whatever libm's log10 says: the result is a decorated digit string — sign
+   only for negative non-zero values, and never shorter than the zero-pad width — of
+   the %e renderer (precision max(P,1)-1) when the exponent is < -4 or >= P, else of
+   the %f renderer (precision P minus the digits before the point) *)
+Lemma g_shape lf c fwv precv x :
+  (ctype c = CGLower \/ ctype c = CGUpper) -> f_is_finite x = true ->
+  exists d, do_format_code lf c fwv precv (VNum x) =
+            Ok (decorate_digits d (is_neg x)
+                  (if fl_zero (flags c) && negb (fl_left (flags c)) then fwv else 0) 0
+                  (fl_plus (flags c)) (fl_blank (flags c))).
+Proof.
+  intros Hc Hf. unfold do_format_code. cbv zeta.
+  destruct Hc as [Hc|Hc]; rewrite Hc; cbn [need_num obind];
+    match goal with |- context [if ?b then render_float_exp _ _ _ _ _ _ _ _ else _] => destruct b end;
+    first [apply render_float_exp_shape; exact Hf | apply render_float_def_shape; exact Hf].
 Qed.
